@@ -90,6 +90,19 @@ def cursor_loop(ctx, body, lp):
     return None
 
 
+def input_driven_loop(ctx, body, lp):
+    """a `while let Some(x) = seq.next_element()?` loop of a serde visitor: every iteration takes one element of the deserializer's
+    input (the call dominates every latch) and the loop ends when the input does, or with its error"""
+    cfg = ctx.cfgof(body)
+    latches = [p for p in cfg.pred.get(lp.header, []) if p in lp.blocks]
+    for bb in sorted(lp.blocks):
+        t = body.block[bb]['term']
+        if t['k'] == 'call' and callee_decl(t).startswith(('serde::de::SeqAccess::next_element', 'serde::de::MapAccess::next_')):
+            if latches and all(cfg.dominates(bb, l) for l in latches):
+                return 'one element of the deserializer\'s input per iteration (%s)' % callee_decl(t).split('::')[-1]
+    return None
+
+
 def _back_edges_pass(ctx, body, lp, dbb):
     """every path from the loop header back to the header passes block dbb"""
     cfg = ctx.cfgof(body)
@@ -147,7 +160,7 @@ def run(ctx):
                 rep.ok('R-C16-3', key, 'tabled: rejection sampling (loop exits as soon as the draw is non-zero): terminates with probability 1, one expected iteration', ctx.where(b, h), nontrivial=False)
                 continue
             if lp.driver_bb is None:
-                why = cursor_loop(ctx, b, lp)
+                why = cursor_loop(ctx, b, lp) or input_driven_loop(ctx, b, lp)
                 if why:
                     rep.ok('R-C16-3', key, 'cursor loop: ' + why, ctx.where(b, h))
                 else:
@@ -237,6 +250,11 @@ def data_dependent(size):
                     stack.append(a)
                 elif isinstance(a, tuple):
                     stack.extend(z for z in a if hasattr(z, 'tag'))
+    s0 = size
+    while s0.tag in ('cast', 'mut', 'via'):
+        s0 = s0[2] if s0.tag in ('cast', 'via') else s0[1]
+    if s0.tag == 'call' and s0[1].split('::')[-1] in ('min',) and len(s0[2]) == 2 and any(y.tag == 'const' and isinstance(y[1], int) for y in s0[2]):
+        return False            # capped by a constant, whatever the other side is
     for x in walk_values(size):
         if x.tag in ('elem', 'elemat'):
             # an element of a byte slice (decoded data), not an element of a slice of statements / proofs
